@@ -178,13 +178,13 @@ class C12Run(E2Run):
                 enabled = [k for k, nic in n.network_interface.items() if nic.enabled]
                 if enabled:
                     bad("interface-enabled-while-not-on", f"interfaces {enabled} enabled while the node is {cur}", sig="interface-enabled-while-not-on")
-                if cur == "OFF":
+                if cur in ("OFF", "BOOTING"):  # (a reset passes through OFF inside one tick and is next seen BOOTING)
                     running = [s.name for s in n.services.values() if s.operating_state.name == "RUNNING"]
                     open_apps = [a.name for a in n.applications.values() if a.operating_state.name == "RUNNING"]
                     if running:
-                        bad("service-running-while-off", f"services {running} RUNNING while the node is OFF")
+                        bad("service-running-while-off", f"services {running} RUNNING while the node is {cur}")
                     if open_apps:
-                        bad("application-open-while-off", f"applications {open_apps} open while the node is OFF")
+                        bad("application-open-while-off", f"applications {open_apps} open while the node is {cur}")
 
     def still_exists(self, node, kind, name) -> bool:
         if kind == "nics":
